@@ -15,7 +15,7 @@ PROP = "C15"
 def make_plan(ths, tier, rnd):
     plan = modelcheck.Plan()
     thorough = tier == "thorough"
-    for theory, (sig, stages) in ths.items():
+    for theory, (sig, stages) in modelcheck.select(ths, PROP, tier):
         if not sig.enums:
             continue
         api = histories.api_of(sig, modelcheck.module_path(theory))
